@@ -217,4 +217,147 @@ Section Reports.
         cbn [json_exn x_raw x_json]. rewrite <- (map_map ostr (with_class cls)).
         repeat split; reflexivity.
   Qed.
+
+  (* ---------------------------------------------------------------- fail-fast mode *)
+  Definition off_body (w : world) (h : heap) : pyval * pyval -> unit -> M unit :=
+    fun '(n, v) (_ : unit) =>
+      (_ <~ tryM (_ <~ (c0 <~ (ret (negb (is_global v (s2p "Undefined")))) ;;
+                        if c0 then (_ <~ w_setattr w n v ;; (ret tt)) else (ret tt)) ;; (ret tt))
+                 [XP_Exception]
+                 (fun x => (c0 <~ (ret (exc_isinstance x (OtherExn (s2p "JSONDecodeError")))) ;;
+                    if c0 then (raiseM x)
+                    else (t52 <~ self_getattr h (s2p "__class__") ;;
+                          t53 <~ lift (obj_getattr h t52 (s2p "__name__")) ;;
+                          let cn := t53 in
+                          (t55 <~ lift (PyOpsDerive.py_format cn) ;;
+                           raiseM (mk_exc (x_cls x) (t55 ++ (s2p ".") ++ (exc_str w x))%list))))) ;;
+       (ret tt)).
+
+  (* what setattr raises is re-raised as the same class with "<Cls>." in front: requires an exception that
+     `except Exception` catches, that is not a JSONDecodeError (re-raised as it is) and whose str() is its argument *)
+  Definition rewrappable (x : pyexc) : bool :=
+    negb (model_level (x_cls x)) && negb (exc_isinstance x (OtherExn (s2p "JSONDecodeError"))) &&
+    negb (exn_eqb (x_cls x) KeyError).
+
+  Definition ff_dom (l : kwargs) : bool :=
+    forallb (fun p => negb (undefined_ref (snd p)) &&
+                      match oracle (fst p) (snd p) with Some x => rewrappable x | None => true end) l.
+
+  Lemma off_body_step b cls n v s :
+    plain n = true -> undefined_ref v = false -> keys_ok s = true ->
+    match oracle n v with Some x => rewrappable x | None => true end = true ->
+    off_body (OW b) (BH cls true) (PStr n, v) tt s =
+    match oracle n v with
+    | None => (alist_set s n v, inl tt)
+    | Some y => (s, inr (mk_exc (x_cls y) (with_class cls (ostr y))))
+    end.
+  Proof.
+    intros Hn Hu Hk Hx. unfold undefined_ref in Hu.
+    unfold off_body. unfold bindM at 1. unfold tryM. unfold bindM at 1. unfold bindM at 1.
+    unfold ret at 1. rewrite Hu. cbn [negb]. unfold bindM at 1. cbn [w_setattr OW oracle_world].
+    rewrite (oracle_setattr_plain n v s Hn).
+    destruct (oracle n v) as [y|]; [|reflexivity].
+    unfold rewrappable in Hx. apply andb_true_iff in Hx. destruct Hx as [Hx Hx3].
+    apply andb_true_iff in Hx. destruct Hx as [Hx1 Hx2].
+    apply negb_true_iff in Hx1. apply negb_true_iff in Hx2. apply negb_true_iff in Hx3.
+    unfold catches. rewrite Hx1. cbn [negb existsb orb andb].
+    unfold bindM at 1. unfold ret at 1. rewrite Hx2.
+    unfold BH. rewrite (bindM_ok _ _ _ _ _ (self_class (bare_class cls) true s Hk)).
+    rewrite (bindM_ok _ _ s s (PStr cls) eq_refl). cbv zeta.
+    rewrite (bindM_ok _ _ s s cls eq_refl).
+    unfold raiseM, with_class, ostr, exc_str. destruct (x_cls y); try reflexivity; try discriminate Hx3.
+  Qed.
+
+  Lemma off_loop b cls : forall l s,
+      names_plain' l = true -> ff_dom l = true -> keys_ok s = true ->
+      match errors_of (map forget (uargs l)) with
+      | [] => exists s', for_acc (off_body (OW b) (BH cls true)) (pairs l) tt s = (s', inl tt) /\ keys_ok s' = true
+      | (n, m) :: _ =>
+          exists s' x y, for_acc (off_body (OW b) (BH cls true)) (pairs l) tt s = (s', inr x) /\
+                         x_arg x = with_class cls m /\ x_cls x = x_cls y /\ rewrappable y = true /\
+                         exists p, In p l /\ oracle (fst p) (snd p) = Some y
+      end.
+  Proof.
+    induction l as [|[n v] t IH]; intros s Hl Hd Hk.
+    - exists s. split; [reflexivity|exact Hk].
+    - cbn [names_plain' forallb fst] in Hl. apply andb_true_iff in Hl. destruct Hl as [Hn Ht].
+      cbn [ff_dom forallb fst snd] in Hd. apply andb_true_iff in Hd. destruct Hd as [Hd1 Hd2].
+      apply andb_true_iff in Hd1. destruct Hd1 as [Hu Hx]. apply negb_true_iff in Hu.
+      pose proof (off_body_step b cls n v s Hn Hu Hk Hx) as Hstep.
+      cbn [uargs map forget errors_of fst snd pairs for_acc]. fold (uargs t). fold (pairs t).
+      destruct (oracle n v) as [y|] eqn:Eo; cbn [option_map fst snd].
+      + rewrite (bindM_raise _ _ _ _ _ Hstep).
+        eexists. eexists. exists y. split; [reflexivity|]. cbn [x_arg x_cls].
+        repeat split; auto. exists (n, v). split; [left; reflexivity | exact Eo].
+      + rewrite (bindM_ok _ _ _ _ _ Hstep).
+        assert (K1 : keys_ok (alist_set s n v) = true) by (apply keys_ok_set; [exact Hk | rewrite Hn; apply orb_true_r]).
+        specialize (IH (alist_set s n v) Ht Hd2 K1).
+        destruct (errors_of (map forget (uargs t))) as [|[n' m'] rest].
+        * exact IH.
+        * destruct IH as [s' [x [y [H1 [H2 [H3 [H4 [p [H5 H6]]]]]]]]].
+          exists s', x, y. repeat split; auto. exists p. split; [right; exact H5 | exact H6].
+  Qed.
+
+  Lemma init_ff_run cls bound :
+    msg_names bound = true ->
+    Structure__init (BH cls true) (OW bound) (PTuple []) (kw_dict bound) [] =
+    match for_acc (off_body (OW bound) (BH cls true)) (pairs bound) tt s_none with
+    | (s', inl _) => (alist_set s' n_instantiated (PBool true), inl tt)
+    | (s', inr x) => (s', inr x)
+    end.
+  Proof.
+    intro Hn.
+    unfold Structure__init.
+    rewrite (bindM_ok _ _ [] [] false eq_refl).
+    rewrite (bindM_ok _ _ [] [] (kw_dict bound) eq_refl).
+    change (kw_dict bound) with (PDict (pairs bound)).
+    change (s2p "kwargs") with n_kwargs.
+    rewrite bindM_assoc. rewrite in_pairs. rewrite (no_kwargs_key bound Hn).
+    rewrite (bindM_ok _ _ [] [] false eq_refl). cbv beta iota.
+    rewrite (bindM_ok _ _ [] [] (PDict (pairs bound)) eq_refl).
+    rewrite (bindM_ok _ _ [] [] (PDict []) eq_refl).
+    rewrite (bindM_ok _ _ [] [] (@nil (pyval * pyval)) eq_refl).
+    rewrite (bindM_ok _ _ [] [] (@nil pyval) eq_refl).
+    rewrite (bindM_ok _ _ [] s_none tt eq_refl).
+    rewrite (bindM_ok _ _ s_none s_none (PDict []) eq_refl).
+    rewrite (bindM_ok _ _ s_none s_none (@nil (pyval * pyval)) eq_refl).
+    rewrite (bindM_ok _ _ s_none s_none tt eq_refl).
+    rewrite (bindM_ok _ _ s_none s_none tt eq_refl).
+    rewrite bindM_assoc. rewrite (bindM_ok _ _ s_none s_none true eq_refl). cbv beta iota.
+    rewrite bindM_assoc. rewrite (bindM_ok _ _ s_none s_none (pairs bound) eq_refl).
+    rewrite bindM_assoc. unfold bindM at 1.
+    change (for_acc _ (pairs bound) tt s_none) with (for_acc (off_body (OW bound) (BH cls true)) (pairs bound) tt s_none).
+    destruct (for_acc (off_body (OW bound) (BH cls true)) (pairs bound) tt s_none) as [s' [[]|x]]; [|reflexivity].
+    cbv beta iota.
+    rewrite (bindM_ok _ _ s' s' tt eq_refl).
+    rewrite (bindM_ok _ _ s' s' PNone eq_refl).
+    rewrite (bindM_ok _ _ s' (alist_set s' n_instantiated (PBool true)) tt eq_refl).
+    rewrite (bindM_ok _ _ _ _ tt eq_refl).
+    rewrite (bindM_ok _ _ _ _ PNone eq_refl).
+    reflexivity.
+  Qed.
+
+  (* fail-fast construction reports the FIRST rejected bound argument, as the same class, "<Cls>." prefixed:
+     Errors/Collect.v [construct_u] in fail-fast mode *)
+  Theorem generated_init_fail_fast_reports : forall cls bound,
+      msg_names bound = true -> ff_dom bound = true ->
+      match construct_u dumps true cls (uargs bound) with
+      | None => exists s, Structure__init (BH cls true) (OW bound) (PTuple []) (kw_dict bound) [] = (s, inl tt)
+      | Some t =>
+          exists s x y, Structure__init (BH cls true) (OW bound) (PTuple []) (kw_dict bound) [] = (s, inr x) /\
+                        x_arg x = x_raw t /\ x_json t = None /\ x_cls x = x_cls y /\
+                        exists p, In p bound /\ oracle (fst p) (snd p) = Some y
+      end.
+  Proof.
+    intros cls bound Hn Hd. rewrite (init_ff_run cls bound Hn).
+    pose proof (off_loop bound cls bound s_none (msg_names_plain bound Hn) Hd eq_refl) as L.
+    unfold construct_u, Collect.construct.
+    destruct (errors_of (map forget (uargs bound))) as [|[n m] rest].
+    - destruct L as [s' [L1 L2]]. rewrite L1. eexists. reflexivity.
+    - destruct L as [s' [x [y [L1 [L2 [L3 [_ L5]]]]]]]. rewrite L1.
+      exists s', x, y. cbn [plain_exn x_raw x_json]. repeat split; assumption.
+  Qed.
 End Reports.
+
+Print Assumptions generated_init_collect_all.
+Print Assumptions generated_init_fail_fast_reports.
